@@ -7,6 +7,13 @@ in between – after every evaluation, and for every cells of every space at the
 The Lean side (Props/C02.lean) carries the theorem about the value layer's mechanism: the
 clearing modelx performs for an edit keeps every surviving value equal to the uncached
 denotation under the new definitions (see the property module for what is proved).
+
+Correspondence of the mechanism model (value layer): generated programs (cached and uncached cells in two
+spaces; references read by name and through attribute paths, from the reference's own space and from the other
+one) with histories mixing evaluations, value edits, reference edits (change, delete, create) and formula /
+cache-flag edits run on modelx and on the Lean driver (`St.setRef`, `St.delRef`, `St.setFormula` of
+Exec/Mech.lean); held values, trace graph and reference graph are compared after every operation.  The same
+histories are also judged by the oracle on the implementation alone.
 """
 import collections
 
@@ -129,9 +136,144 @@ class H(S.Hooks):
                 break
 
 
+# ----------------------------------------------------------------------------- value layer (mechanism model)
+
+XCFG = {
+    "weights": {"eval": 7, "reeval": 2, "set": 1, "clearat": 0.5, "clear": 0.3, "setref": 3, "delref": 0.6,
+                "setformula": 1.5, "setcached": 0.5},
+    "compare": ["values", "graph", "refgraph"],
+    "space_p": 0.4, "no_try_p": 0.6, "maxdepths": [None], "raise_p": 0.03, "none_p": 0.02, "catch_all_p": 0.1,
+    "min_ops": 10, "max_ops": 22, "min_cells": 3, "max_cells": 6,
+    "rule": "value layer: random programs (3-6 cells, cached and uncached, in two spaces; references read by name and "
+            "through attribute paths from either space) with histories of 10-22 evaluations, value edits, reference "
+            "edits (change / delete / create) and formula / cache-flag edits; non-trivial = an evaluation after an "
+            "edit returned a value different from the one the same query returned before",
+}
+
+X_EDITS = ("set", "clearat", "clearall", "setref", "delref", "setformula", "setcached")
+
+
+def _short(res):
+    """result without the traceback (a property of the path taken, not of the answer)"""
+    return res.split(" tb=")[0]
+
+
+def _has_try(case, upto):
+    from ..expr import subexprs, parse_sexp
+    bodies = [c["body"] for c in case["cells"]]
+    bodies += [parse_sexp(" ".join(op[2:])) for op in case["ops"][:upto] if op[0] == "setformula"]
+    return any(e[0] == "try" for b in bodies for e in subexprs(b))
+
+
+def xoracle(case, recs, out, stats):
+    """every answer of the live model = the answer of a model to which only the edits were applied"""
+    from .. import exec_props as X
+    from ..execworld import ExecImpl
+    last, nontrivial, edited = {}, False, False
+    for k, rec in enumerate(recs):
+        op = rec["op"]
+        if op[0] in X_EDITS:
+            edited = True
+        if op[0] != "eval":
+            continue
+        q = tuple(op)
+        got = _short(rec["impl"])
+        if edited and q in last and last[q] != got and got.startswith("ok"):
+            nontrivial = True
+        last[q] = got
+        fresh = ExecImpl(case["cells"], case["refs"], case["n_rn"], case["maxdepth"], log=False)
+        try:
+            for o in case["ops"][:k]:
+                if o[0] in X_EDITS:
+                    fresh.apply(o)
+            want = _short(fresh.apply(op))
+        finally:
+            fresh.close()
+        stats["oracle_fresh_queries"] += 1
+        if want != got:
+            # a formula that handles a failure (of a callee, of a read) keeps no record of what it depended on
+            key = KNOWN_CAUGHT if _has_try(case, k) else None
+            out.fail("%s returns %s but a model to which only the edits were applied returns %s" % (
+                " ".join(op), got, want), X.case_json(dict(case, ops=case["ops"][:k + 1])), key=key)
+            break
+    return nontrivial
+
+
+def scenario_cases(ctx):
+    """Scenario family of the value layer: several readers of ONE reference (by name, by attribute path from the
+    reference's own space and from the other one, directly and through an uncached cells), all evaluated; one reader
+    is discarded by some edit (clear_at, clear, assignment, new formula, flag change); the reference is edited
+    (changed, deleted, deleted and created again); everything is evaluated again.  Quick: a seeded sample."""
+    cases = []
+    for R in (0, 2):                      # reference of space 0 / of space 1
+        rsp = 0 if R < 2 else 1
+        for via_uncached in (False, True):
+            for hit in ("clearat", "clear", "set", "setformula", "setcached"):
+                for victim in (0, 1):
+                    for edit in ("change", "delete", "recreate"):
+                        cells = [
+                            {"id": 0, "nparams": 0, "cached": True, "allow_none": False, "space": 0,
+                             "body": ("add", ("ra", R), ("lit", 10))},
+                            {"id": 1, "nparams": 0, "cached": not via_uncached, "allow_none": False, "space": 1 - rsp,
+                             "body": ("add", ("ra", R), ("lit", 20))},
+                            {"id": 2, "nparams": 0, "cached": True, "allow_none": False, "space": 0,
+                             "body": ("add", ("call", 1, []), ("lit", 1))},
+                            {"id": 3, "nparams": 0, "cached": True, "allow_none": False, "space": rsp,
+                             "body": ("add", ("rn", R), ("call", 0, []))},
+                        ]
+                        ev = [["eval", "0"], ["eval", "2"], ["eval", "3"], ["eval", "1"]]
+                        v = str(victim if not (via_uncached and victim == 1) else 2)
+                        h = {"clearat": ["clearat", v], "clear": ["clear", v], "set": ["set", v, "=", "7"],
+                             "setformula": ["setformula", v, "(add (ra %d) (lit 30))" % R],
+                             "setcached": ["setcached", v, "0"]}[hit]
+                        e = {"change": [["setref", str(R), "5"]], "delete": [["delref", str(R)]],
+                             "recreate": [["delref", str(R)], ["setref", str(R), "6"]]}[edit]
+                        cases.append({"cells": cells, "refs": {0: 1, 1: 2, 2: 3, 3: 4}, "n_rn": 2, "maxdepth": None,
+                                      "ops": ev + [h] + e + ev,
+                                      "label": "readers-of-one-reference/%s/%s/%s" % (hit, edit, "uncached" if via_uncached else "cached")})
+    if ctx.tier != "thorough":
+        cases = ctx.rng("scenarios").sample(cases, 36)
+    return cases
+
+
 def run(ctx, out):
+    from .. import exec_props as X
+    sub = core.Outcome()
+    xstats = X.run_family(ctx, sub, XCFG, xoracle, 70, 1500, corpus_name="C02exec", structured=scenario_cases(ctx))
+    S.merge(out, sub)
     S.run_struct(ctx, out, "C02", CFG, H, 60, 1200, RULE, ops_range=(14, 30))
+    out.coverage["value_layer_mechanism"] = sub.coverage
+    out.coverage["evaluations"] = out.coverage.get("evaluations", 0) + sub.coverage.get("evaluations", 0)
+
+
+SEARCH_CFG = dict(XCFG, weights={"eval": 6, "reeval": 5, "set": 2, "clearat": 3, "clear": 1, "setref": 5, "delref": 0.5,
+                                  "setformula": 1, "setcached": 0.3},
+                  no_try_p=1.0, min_ops=14, max_ops=26, min_cells=3, max_cells=6)
+
+
+def search(ctx, out, extra):
+    """the theorem or the correspondence no longer stands: look for a history on which the implementation itself
+    breaks the property (value layer: try-free programs, many attribute-path reads, value edits followed by
+    reference edits and re-evaluations), judged by the fresh-model oracle alone"""
+    from .. import exec_props as X
+    from ..execworld import ExecImpl
+    stats = collections.Counter()
+    for i in range(ctx.n(120, 1500)):
+        case = X.gen_case(ctx.rng("search", i), SEARCH_CFG)
+        impl = ExecImpl(case["cells"], case["refs"], case["n_rn"], case["maxdepth"], log=False)
+        try:
+            recs = [{"op": op, "impl": impl.apply(op)} for op in case["ops"]]
+        finally:
+            impl.close()
+        xoracle(case, recs, extra, stats)
+        if any(f.get("key") is None for f in extra.failures):
+            return
 
 
 def replay(ctx, payload, out):
+    h = payload.get("history")
+    if isinstance(h, dict) and "cells_raw" in h:
+        from .. import exec_props as X
+        X.replay_family(ctx, payload, out, XCFG, xoracle)
+        return
     S.replay_struct(payload, out, H, CFG)
